@@ -27,6 +27,22 @@ Two kinds of plan activity leave no line of their own in the trace and are recon
     when no `ps` follows the last finish the tool tries the candidate subsets (reported in stats).
 The order in which Pool::RetrieveReadyEdges takes delayed edges (priority) is an input of the model:
 the tool passes "edges the next `ps` shows not delayed, then the still delayed ones".
+
+DYNDEP.  Dyndep files loaded by the dependency scan are part of the snapshot.  Loads DURING the build
+(Builder::LoadDyndeps from Plan::EdgeFinished -> Plan::DyndepsLoaded) are part of the model; the harness prints,
+add-only: `ddsnap <out0> dd=<path> pending=0|1` (dyndep bindings at snapshot time), `sc <out0> cons=..` (the
+out-edges NodeFinished visits, in its order), and with every `ps` dump `pg <out0> outs=.. ins=.. cons=..` for
+each edge whose inputs_/outputs_/out-edges changed and `po ready=..` (the edges with outputs_ready_).  From them:
+  * the graph gets GATED entries `x@b` (input/out-edge that exists once the dyndep information of edge b is
+    loaded), `ddprod=` (the edge producing the pending dyndep file an edge is bound to), `ddouts=`;
+  * one `load <e> dirty= ready= added= walk=` line per Plan::DyndepsLoaded call, keyed by the edge e whose
+    EdgeFinished makes the call: what the re-scan decided, read off the plan state before/after the event in
+    which e became outputs_ready (dirty: kWantNothing -- or pruned in the same event -- and wanted afterwards;
+    added: new want_ entries; ready: edges outside want_ that became outputs_ready; walk: a simulation of
+    AddSubTarget's dyndep_walk + the dyndep node's out-edges).  The model performs the bookkeeping and checks
+    every fact it can (PlanDefs.apply_load); `outputs_ready` is compared with every `po` line as well.
+  * dyndep_walk is a std::set<Edge*>: its iteration order (heap addresses) is not in the trace and does show
+    in which pool edge gets delayed; ascending ids first, then the same search as for phony starts.
 """
 import os, sys, re, subprocess, hashlib, itertools, random, collections
 
@@ -37,52 +53,40 @@ VERIF = os.path.dirname(HERE)
 
 # ------------------------------------------------------------------------------ model binary
 _BIN = None
-def _driver_source():
-    """the OCaml driver lives in coq/Engine/README_plan.md between the markers"""
-    txt = open(os.path.join(VERIF, 'coq', 'Engine', 'README_plan.md')).read()
-    m = re.search(r'<!-- plan-driver-begin -->\s*```ocaml\n(.*?)```\s*<!-- plan-driver-end -->', txt, re.S)
-    if not m: raise RuntimeError('driver snippet not found in README_plan.md')
-    return m.group(1)
-
 def model_binary():
-    """PLAN_MODEL_RUN, else the project's model_run if it knows `plan`, else a private build"""
+    """PLAN_MODEL_RUN, else plan_run next to the project's model_run (vlib.build_model), else a private build
+    from coq/ExtractPlan.v + extract/plan_run.ml"""
     global _BIN
     if _BIN: return _BIN
     if os.environ.get('PLAN_MODEL_RUN'):
         _BIN = os.environ['PLAN_MODEL_RUN']; return _BIN
     if not os.environ.get('PLAN_MODEL_PRIVATE'):
         try:
-            b = vlib.build_model()
+            b = os.path.join(os.path.dirname(vlib.build_model()), 'plan_run')
             p = subprocess.run([b, 'plan'], input=b'plan x j=1 k=1 tokens=-1\nend\n', stdout=subprocess.PIPE, stderr=subprocess.PIPE)
             if p.returncode == 0 and p.stdout.startswith(b'plan x'):
                 _BIN = b; return _BIN
         except Exception:
             pass
     defs = os.path.join(VERIF, 'coq', 'Engine', 'PlanDefs.v')
-    drv = _driver_source()
-    h = hashlib.sha256(open(defs, 'rb').read() + drv.encode()).hexdigest()[:16]
+    drv = os.path.join(VERIF, 'extract', 'plan_run.ml')
+    h = hashlib.sha256(open(defs, 'rb').read() + open(drv, 'rb').read()).hexdigest()[:16]
     d = '/tmp/planmodel-cache-' + h
     exe = os.path.join(d, 'plan_run')
     if not os.path.exists(exe):
-        os.makedirs(d, exist_ok=True)
-        base = os.path.join(d, 'NinjaV'); os.makedirs(os.path.join(base, 'Base'), exist_ok=True); os.makedirs(os.path.join(base, 'Engine'), exist_ok=True)
         import shutil
+        base = os.path.join(d, 'NinjaV'); os.makedirs(os.path.join(base, 'Base'), exist_ok=True); os.makedirs(os.path.join(base, 'Engine'), exist_ok=True)
         shutil.copy(os.path.join(VERIF, 'coq', 'Base', 'Bytes.v'), os.path.join(base, 'Base'))
         shutil.copy(defs, os.path.join(base, 'Engine'))
-        open(os.path.join(d, 'ext.v'), 'w').write(
-            'Require Import ExtrOcamlBasic.\nFrom NinjaV Require Import Base.Bytes Engine.PlanDefs.\n'
-            'Extraction Language OCaml.\nSet Extraction KeepSingleton.\n'
-            'Extraction "model.ml" ' + EXTRACT_NAMES + '.\n')
+        shutil.copy(os.path.join(VERIF, 'coq', 'ExtractPlan.v'), d); shutil.copy(drv, d)
         for f in ('Base/Bytes.v', 'Engine/PlanDefs.v'):
             subprocess.run(['coqc', '-Q', base, 'NinjaV', os.path.join(base, f)], check=True, cwd=d, timeout=900)
-        subprocess.run(['coqc', '-Q', base, 'NinjaV', 'ext.v'], check=True, cwd=d, timeout=900)
-        open(os.path.join(d, 'main.ml'), 'w').write('open Model\n' + drv + '\nlet () = plan_main ()\n')
-        subprocess.run(['ocamlfind', 'ocamlopt', '-w', '-a', 'model.mli', 'model.ml', 'main.ml', '-o', 'plan_run'], check=True, cwd=d)
+        subprocess.run(['coqc', '-Q', base, 'NinjaV', 'ExtractPlan.v'], check=True, cwd=d, timeout=900)
+        subprocess.run(['ocamlfind', 'ocamlopt', '-w', '-a', 'planmodel.mli', 'planmodel.ml', 'plan_run.ml', '-o', 'plan_run'], check=True, cwd=d)
     _BIN = exe
     return _BIN
 
 ORDER_TRIES = 30
-EXTRACT_NAMES = 'step_res step accepts init_state run auto_phony plan_fuel want_list use_list wf_graph_b wf_snap_b wf_cfg_b'
 
 # ------------------------------------------------------------------------------ trace parsing
 def _kv(ws): return dict(x.split('=', 1) for x in ws if '=' in x)
@@ -139,9 +143,15 @@ class BuildCase:
 
     def parse(s, lines):
         added = 0; snap_seen = False; plan_seen = False
+        s.ddsnap = {}     # out0 of a bound edge -> (dyndep path, pending)
+        s.sc = {}         # out0 -> out0s of the edges NodeFinished visits, in order (None: older harness)
         for l in lines:
             w = l.split()
-            if w[0] == 'snap' and w[1] == 'edge':
+            if w[0] == 'ddsnap':
+                kv = _kv(w[2:]); s.ddsnap[w[1]] = (kv['dd'], kv['pending'] == '1')
+            elif w[0] == 'sc':
+                s.sc[w[1]] = _lst(_kv(w[2:])['cons'])
+            elif w[0] == 'snap' and w[1] == 'edge':
                 if plan_seen: raise Skip('several snapshots (manifest rebuilt)')
                 kv = _kv(w[3:]); kv['out0'] = w[2]; s.edges.append(kv); snap_seen = True
             elif w[0] == 'snap' and w[1] == 'plan':
@@ -152,6 +162,8 @@ class BuildCase:
                     raise Skip('manifest rebuild phase')
             else:
                 if w[0] == 'ps': s.items.append(('ps', Ps(l)))
+                elif w[0] == 'pg': kv = _kv(w[2:]); s.items.append(('pg', w[1], _lst(kv['outs']), _lst(kv['ins']), _lst(kv['cons']) if 'cons' in kv else None))
+                elif w[0] == 'po': s.items.append(('po', set(_lst(_kv(w[1:])['ready']))))
                 elif w[0] == 'ev' and w[1] == 'start': s.items.append(('start', w[2]))
                 elif w[0] == 'ev' and w[1] == 'wait': s.items.append(('wait',))
                 elif w[0] == 'ev' and w[1] == 'finish': s.items.append(('finish', w[2], int(w[3])))
@@ -168,17 +180,78 @@ class BuildCase:
         s.added0 = added
         # ids
         s.id = {e['out0']: i for i, e in enumerate(s.edges)}
+        s.has_dyndep = any(p for _, p in s.ddsnap.values())
         prod = {}
         for i, e in enumerate(s.edges):
             for o in _lst(e['outs']): prod[o] = i
-        s.ins = [[prod[x] for x in _lst(e['ins']) if x in prod] for e in s.edges]
-        s.cons = []
-        for i, e in enumerate(s.edges):
-            c = []
-            for o in _lst(e['outs']):
-                for d, ed in enumerate(s.edges):
-                    c += [d] * _lst(ed['ins']).count(o)
-            s.cons.append(c)
+        # the graph at the end of the build (`pg` lines: inputs_/outputs_ after dyndep loads)
+        n = len(s.edges)
+        ins0 = [_lst(e['ins']) for e in s.edges]; outs0 = [_lst(e['outs']) for e in s.edges]
+        insF = [list(x) for x in ins0]; outsF = [list(x) for x in outs0]
+        for it in s.items:
+            if it[0] == 'pg' and it[1] in s.id: outsF[s.id[it[1]]] = it[2]; insF[s.id[it[1]]] = it[3]
+        prodF = {}
+        for i in range(n):
+            for o in outsF[i]: prodF.setdefault(o, i)
+        # edges bound to a dyndep file that is pending when Build() starts and has a producing edge:
+        # their dyndep-discovered inputs/outputs are entries gated by the bound edge
+        s.ddprod = [None] * n; s.ddnodes = collections.defaultdict(list)
+        for out0, (dd, pending) in s.ddsnap.items():
+            if pending and out0 in s.id and dd in prod:
+                s.ddprod[s.id[out0]] = prod[dd]
+                if dd not in s.ddnodes[prod[dd]]: s.ddnodes[prod[dd]].append(dd)
+        def gate(b, x): return '%d@%d' % (x, b) if s.ddprod[b] is not None else str(x)
+        newouts = {}    # node discovered as an output of b by a dyndep load -> b
+        for b in range(n):
+            for o in outsF[b][len(outs0[b]):]: newouts[o] = b
+        s.gins = []     # gated entries as strings; s.ins = all producers (final graph)
+        s.ins = []
+        for d in range(n):
+            old = collections.Counter(ins0[d]); gl = []; pl = []
+            for x in insF[d]:
+                if x not in prodF: continue
+                isnew = old[x] == 0
+                if not isnew: old[x] -= 1
+                if x in newouts and newouts[x] != d: gl.append(gate(newouts[x], prodF[x]))
+                elif isnew: gl.append(gate(d, prodF[x]))
+                else: gl.append(str(prodF[x]))
+                pl.append(prodF[x])
+            s.gins.append(gl); s.ins.append(pl)
+        s.gcons = []; s.cons = []
+        for i in range(n):
+            gl = []; pl = []
+            for o in outsF[i]:
+                for d in range(n):
+                    old = collections.Counter(ins0[d])
+                    for x in insF[d]:
+                        isnew = old[x] == 0
+                        if not isnew: old[x] -= 1
+                        if x != o: continue
+                        if o in newouts and newouts[o] != d: gl.append(gate(newouts[o], d))
+                        elif isnew: gl.append(gate(d, d))
+                        else: gl.append(str(d))
+                        pl.append(d)
+            s.gcons.append(gl); s.cons.append(pl)
+        # the exact visiting order of NodeFinished when the harness prints it (`sc` lines, `cons=` of `pg`)
+        if s.sc:
+            consF = {}
+            for i, e in enumerate(s.edges): consF[i] = s.sc.get(e['out0'])
+            for it in s.items:
+                if it[0] == 'pg' and it[1] in s.id and len(it) > 4 and it[4] is not None: consF[s.id[it[1]]] = it[4]
+            for i in range(n):
+                if consF[i] is None: continue
+                order = [s.id[x] for x in consF[i] if x in s.id]
+                if collections.Counter(order) != collections.Counter(s.cons[i]): continue   # keep the computed one
+                queues = collections.defaultdict(list)
+                for ent, d in zip(s.gcons[i], s.cons[i]): queues[d].append(ent)
+                s.gcons[i] = [queues[d].pop(0) for d in order]; s.cons[i] = order
+        # out_edges of the pending dyndep nodes an edge produces
+        s.ddouts = []
+        for i in range(n):
+            l = []
+            for dd in s.ddnodes.get(i, []):
+                for d in range(n): l += [d] * insF[d].count(dd)
+            s.ddouts.append(l)
         s.phony = [e['phony'] == '1' for e in s.edges]
         s.pool_id = {'-': 0}; s.depths = [0]
         for e in s.edges:
@@ -216,10 +289,12 @@ class BuildCase:
         C = [None]
         for i, d in enumerate(s.depths): L.append('pool %d %d' % (i, d)); C.append(None)
         for i, e in enumerate(s.edges):
-            L.append('edge %d pool=%d phony=%d ins=%s cons=%s want=%s ready=%s rank=%d' % (
-                i, s.pool_id[e['pool']], 1 if s.phony[i] else 0, ','.join(map(str, s.ins[i])) or '-',
-                ','.join(map(str, s.cons[i])) or '-', e['want'], e['ready'], s.rank[i])); C.append(None)
+            L.append('edge %d pool=%d phony=%d ins=%s cons=%s ddprod=%s ddouts=%s want=%s ready=%s rank=%d' % (
+                i, s.pool_id[e['pool']], 1 if s.phony[i] else 0, ','.join(s.gins[i]) or '-',
+                ','.join(s.gcons[i]) or '-', '-' if s.ddprod[i] is None else s.ddprod[i],
+                ','.join(map(str, s.ddouts[i])) or '-', e['want'], e['ready'], s.rank[i])); C.append(None)
         L.append('snapplan %d %d' % (s.snap_wanted, s.snap_commands)); C.append(None)
+        for l in s.load_lines(order, rnd): L.append(l); C.append(None)
         items = s.items
         def next_ps(i, stop=('exit',)):
             for j in range(i + 1, len(items)):
@@ -228,18 +303,20 @@ class BuildCase:
             return None
         first = next_ps(-1)
         L.append('init ' + s.hint(first)); C.append(('init',))
-        last = None; prev = 'init'
+        last = None; prev = 'init'; cur_po = None
         st = dict(added=s.added0, removed=0, started=0, finished=0)
         ambiguous = None
         for i, it in enumerate(items):
             k0 = it[0]
             if k0 == 'st': st[it[1]] += 1; continue
+            if k0 == 'pg': continue
+            if k0 == 'po': cur_po = it[1]; continue
             if k0 == 'ps':
                 T = it[1]
                 if prev == 'ps' and last is not None:
                     S = s.gone_phony(last, T)
                     if S: L.append('auto %s %s' % (perm(S), s.hint(T))); C.append(None)
-                L.append('#check'); C.append(('ps', T, dict(st)))
+                L.append('#check'); C.append(('ps', T, dict(st), cur_po))
                 last = T
             elif k0 == 'start':
                 T = next_ps(i)
@@ -252,8 +329,8 @@ class BuildCase:
                 T = next_ps(i, stop=('exit',))
                 pr = []
                 for j in range(i + 1, len(items)):
-                    if items[j][0] != 'st': break
-                    if items[j][1] == 'removed': pr.append(s.id[items[j][2]])
+                    if items[j][0] not in ('st', 'pg', 'po'): break
+                    if items[j][0] == 'st' and items[j][1] == 'removed': pr.append(s.id[items[j][2]])
                 if it[2] == 0 and last is not None:
                     cand = [s.id[x] for x, w in last.want.items() if w == 's' and s.phony[s.id[x]] and x not in last.ready and x not in last.delayed]
                     if T is not None:
@@ -278,6 +355,68 @@ class BuildCase:
         s.ambiguous = ambiguous
         return L, C
 
+    def load_lines(s, order=None, rnd=None):
+        """`load` lines: what the trace says about each Plan::DyndepsLoaded call made during the build (keyed by
+        the edge whose EdgeFinished loads the dyndep file).  The re-scan's decisions are read off the plan
+        state before/after the event in which that edge's outputs became ready."""
+        if not any(x is not None for x in s.ddprod): return []
+        n = len(s.edges); res = {}
+        P = None; O = None; curO = None; PR = set()
+        snap_ready = {e['out0'] for e in s.edges if e['ready'] == '1'}
+        for it in s.items:
+            if it[0] == 'po': curO = it[1]
+            if it[0] == 'st' and it[1] == 'removed' and it[2] in s.id: PR.add(s.id[it[2]])
+            if it[0] != 'ps': continue
+            T = it[1]; O2 = curO if curO is not None else snap_ready
+            if P is not None:
+                R = {s.id[x] for x in (O2 - (O or set())) if x in s.id}
+                ldr = sorted([e for e in R if s.ddnodes.get(e)], key=lambda e: s.rank[e])
+                if ldr:
+                    pw = {s.id[x]: w for x, w in P.want.items()}; tw = {s.id[x]: w for x, w in T.want.items()}
+                    # kWantNothing (also: pruned by restat earlier in this very event) and wanted afterwards
+                    dirty = sorted(x for x, w in pw.items() if (w == 'n' or x in PR) and tw.get(x) in ('s', 'f'))
+                    added = [(x, 's' if tw[x] in ('s', 'f') else 'n') for x in sorted(tw, key=lambda x: s.rank[x]) if x not in pw]
+                    ready = sorted([x for x in R if x not in pw and x not in tw and not s.ddnodes.get(x) or (x in R and x not in pw and x not in tw and x not in ldr)], key=lambda x: s.rank[x])
+                    ready = sorted(set(x for x in R if x not in pw and x not in tw), key=lambda x: s.rank[x])
+                    for k, e in enumerate(ldr):
+                        roots = [b for b in range(n) if s.ddprod[b] == e and (b in pw or b in tw)]
+                        walk = set(x for x in s.ddouts[e] if x in pw or x in tw)
+                        if k == 0:
+                            # dyndep_walk: AddSubTarget from the dyndep-discovered inputs of the bound edges that are in
+                            # the plan; it stops at edges already in want_ (not at all for kWantToFinish) and recurses
+                            # through the entries it inserts.  Entries inserted by AddTarget for validation nodes are
+                            # NOT in the walk.
+                            addset = {x for x, _ in added}; seen = set()
+                            def visit(x):
+                                if x in pw:
+                                    if pw[x] != 'f': walk.add(x)
+                                    return
+                                if x in addset and x not in seen:
+                                    seen.add(x); walk.add(x)
+                                    for y in s.ins[x]: visit(y)
+                            for b in roots:
+                                for ent in s.gins[b]:
+                                    if ent.endswith('@%d' % b): visit(int(ent.split('@')[0]))
+                            res[e] = (dirty, ready, added, sorted(walk))
+                        else:
+                            res[e] = ([], [], [], sorted(walk))
+            P = T; O = O2; PR = set()
+        for e in range(n):
+            if s.ddnodes.get(e) and e not in res: res[e] = ([], [], [], sorted(set(s.ddouts[e])))
+        s.nloads = len(res)
+        # dyndep_walk is a std::set<Edge*>: its iteration order is the order of heap addresses, which the
+        # trace does not show; ascending edge ids first, other orders are tried when the replay mismatches
+        def wperm(w):
+            w = list(w)
+            if len(w) > 1: s.multi_auto = True
+            if order == 'rev': w.reverse()
+            elif rnd: rnd.shuffle(w)
+            return w
+        return ['load %d dirty=%s ready=%s added=%s walk=%s' % (
+                    e, ','.join(map(str, d)) or '-', ','.join(map(str, r)) or '-',
+                    ','.join('%d:%s' % a for a in ad) or '-', ','.join(map(str, wperm(w))) or '-')
+                for e, (d, r, ad, w) in sorted(res.items())]
+
     def gone_phony(s, last, T):
         return sorted(s.id[x] for x, w in last.want.items() if w in 's f'.split() and s.phony[s.id[x]] and x not in T.want)
 
@@ -299,7 +438,7 @@ class BuildCase:
         for l, c in zip(L, C):
             if l.startswith('#check'):
                 ans = None
-            elif l.split()[0] in ('pool', 'edge', 'snapplan'):
+            elif l.split()[0] in ('pool', 'edge', 'snapplan', 'load'):
                 continue
             else:
                 ans = out[oi] if oi < len(out) else 'missing'; oi += 1
@@ -313,7 +452,7 @@ class BuildCase:
                 for f in ('wfgraph', 'wfsnap', 'wfcfg'):
                     if cur.get(f) != '1': bad.append('%s: snapshot violates %s' % (s.label, f))
             elif c[0] == 'ps':
-                bad += s.cmp_ps(cur, c[1], c[2])
+                bad += s.cmp_ps(cur, c[1], c[2], c[3] if len(c) > 3 else None)
             elif c[0] == 'exit':
                 stc = c[3]
                 if c[2] != 'interrupted':
@@ -321,9 +460,12 @@ class BuildCase:
                         if int(cur[f]) != v: bad.append('%s: at exit: status counter %s model %s impl %d' % (s.label, f, cur[f], v))
         return bad
 
-    def cmp_ps(s, cur, T, stc):
+    def cmp_ps(s, cur, T, stc, po=None):
         bad = []; name = lambda i: vlib.unhex(s.edges[int(i)]['out0']).decode('latin1')
         def ids(x): return set(int(i) for i in _lst(x))
+        if po is not None and 'oready' in cur:
+            ip = {s.id[x] for x in po if x in s.id}
+            if ids(cur['oready']) != ip: bad.append('outputs_ready: model %s impl %s' % (sorted(ids(cur['oready'])), sorted(ip)))
         mw = {int(a.split(':')[0]): a.split(':')[1] for a in _lst(cur['want'])}
         iw = {s.id[x]: w for x, w in T.want.items()}
         if mw != iw: bad.append('want: model %s impl %s' % (sorted(mw.items()), sorted(iw.items())))
@@ -380,6 +522,14 @@ def check_many(pairs):
             if l.startswith('exit '): stats['exit ' + l.split()[2] + (' code!=0' if l.split()[1] != '0' else '')] += 1
             if l.startswith('finish ') and l.split()[2] != '0': stats['failed-commands'] += 1
         if int(c.opts.get('tokens', -1)) >= 0: stats['with-jobserver'] += 1
+        if c.has_dyndep: stats['with-pending-dyndep'] += 1
+        if any(it[0] == 'pg' for it in c.items): stats['with-dyndep-load-changing-the-graph'] += 1
+        for l in L:
+            if l.startswith('load '):
+                kv = _kv(l.split()[2:])
+                if kv['dirty'] != '-': stats['loads: dependents found dirty'] += 1
+                if kv['added'] != '-': stats['loads: new want_ entries'] += 1
+                if kv['ready'] != '-': stats['loads: new edges found up to date'] += 1
         if len(c.depths) > 1: stats['with-pools'] += 1
         if any(x and x[0] == 'ps' and x[1].delayed for x in C): stats['with-delayed-edges'] += 1
         if bad and (c.ambiguous or c.multi_auto): retry.append((pi, c, bad))
